@@ -298,6 +298,22 @@ example :
     pathOf auTree [0, 3, 0] = some [47, 109, 97, 58, 99, 47, 107, 108, 91, 50, 93, 47, 121] := by
   decide +kernel
 
+/-! ## `*` is a NameTest on its own (F352) -/
+
+/-- **star_never_prefix.** With the repaired lexer (`Generated.XpConsts.starNoPrefix = true`, read off `lyxp_expr_parse`) a `*` at the
+    start of a NameTest is the whole token whatever follows — in particular `*:name` is not one NameTest, and since a lone `:` starts no
+    token, `ly_path_parse` refuses `/*:a` … -/
+theorem star_never_prefix (hsrc : Generated.XpConsts.starNoPrefix = true) (r : Bytes) :
+    nameTest (42 :: r) = some ([42], r) ∧ parsePath [47, 42, 58, 97] = none := by
+  constructor
+  · simp [nameTest, nameTestWith, hsrc, firstLen]
+  · simp only [parsePath, tokenize, tokAux, skipWs, isWs, lexOne, nameTest, nameTestWith, hsrc]
+    decide
+
+/-- … while the pinned lexer took `*:a` as one NameTest (both variants are in the model; the source decides which one is live) -/
+theorem star_prefix_pinned : nameTestWith false [42, 58, 97] = some ([42, 58, 97], []) ∧
+    nameTestWith true [42, 58, 97] = some ([42], [58, 97]) := by decide
+
 /-! ## searching and creating along the printed path -/
 
 /-- What the theorems below ask of a node's ancestor-or-self chain `ls` in tree `f` under schema `schema`:
